@@ -81,20 +81,23 @@ pub fn gift128(k: &[u8]) -> R {
     bx(refmodels::gift128::Gift128::new(k))
 }
 
-// ---- models still being integrated return None (the monitors treat a missing model as
-// "no reference available", which makes a KAT check inconclusive, never violated)
-pub fn blowfish(_k: &[u8]) -> R {
-    None
+pub fn blowfish(k: &[u8]) -> R {
+    bx(refmodels::blowfish::Blowfish::new(k))
 }
-pub fn blowfish_le(_k: &[u8]) -> R {
-    None
+pub fn blowfish_le(k: &[u8]) -> R {
+    bx(refmodels::blowfish::Blowfish::new(k).map(refmodels::BlowfishLe))
 }
-pub fn rc2(_k: &[u8]) -> R {
-    None
+pub fn rc2(k: &[u8]) -> R {
+    bx(refmodels::rc2::Rc2::new(k))
 }
-pub fn rc2_eff(_k: &[u8]) -> R {
-    None
+/// key material = effective bits as 2 LE bytes || key
+pub fn rc2_eff(k: &[u8]) -> R {
+    if k.len() < 3 {
+        return None;
+    }
+    let bits = u16::from_le_bytes([k[0], k[1]]) as usize;
+    bx(refmodels::rc2::Rc2::new_with_eff_bits(&k[2..], bits))
 }
-pub fn xtea(_k: &[u8]) -> R {
-    None
+pub fn xtea(k: &[u8]) -> R {
+    bx(refmodels::xtea::Xtea::new(k))
 }
